@@ -62,12 +62,23 @@ OPT_ENTRIES = ("std", "rc2cb", "config_dirs", "set_conf_dirs")     # entry point
 
 def layered_scenarios(rnd, recs3, recs2, budget, recs4=()):
     scen = []
-    pool = [(x, "std") for x in recs3 if len(x["log"]) >= 1] + [(x, e) for x in recs2 if len(x["log"]) >= 1 for e in ("readdirscb", "readhistcb", "rc2cb")]
-    rnd.shuffle(pool)
+    # every entry point gets its share of the budget (round robin over per-entry pools: std three times as often as each other one)
+    pools = {"std": [(x, "std") for x in recs3 if len(x["log"]) >= 1]}
+    for e in ("readdirscb", "readhistcb", "rc2cb"):
+        pools[e] = [(x, e) for x in recs2 if len(x["log"]) >= 1]
     # two drop-in directories per layer (CONFIG_DIRS list / econf_set_conf_dirs)
-    pool2 = [(x, e) for x in recs4 if len(x["log"]) >= 2 and any(2 in row for row in x["pd"]) for e in ("config_dirs", "set_conf_dirs")]
-    rnd.shuffle(pool2)
-    pool = pool2[:max(10, budget // 100)] + pool
+    for e in ("config_dirs", "set_conf_dirs"):
+        pools[e] = [(x, e) for x in recs4 if len(x["log"]) >= 2 and any(2 in row for row in x["pd"])]
+    for v in pools.values():
+        rnd.shuffle(v)
+    order = ["std", "readdirscb", "std", "readhistcb", "std", "rc2cb", "config_dirs", "set_conf_dirs"]
+    pool = []
+    idx = {k: 0 for k in pools}
+    while any(idx[k] < len(pools[k]) for k in pools) and len(pool) < budget:
+        for k in order:
+            if idx[k] < len(pools[k]):
+                pool.append(pools[k][idx[k]])
+                idx[k] += 1
     for x, ent in pool:
         K = [tuple(f) for f in x["log"]]
         variants = [("none", None)]
